@@ -1173,6 +1173,14 @@ func (w *w1World) checkJoinLeave(obs *w1SimClient) {
 				if bal < 0 {
 					if i+1 < len(seq) && seq[i+1] == "J" {
 						anomaly = "leave published before the join of the same subscription"
+						// the recorded finding: the join is published by the tail of the
+						// subscribe, after the commit; an unsubscribe / close that begins
+						// while that subscribe is still completing publishes its leave first.
+						// A leave that overtakes the join of a subscribe that had already
+						// returned when the end began is a different matter.
+						if w.endedDuringSubscribeCallback(cl, ch) {
+							anomaly += " [the subscription was ended while its subscribe was still completing]"
+						}
 					} else {
 						anomaly = "leave without any join"
 					}
